@@ -200,7 +200,13 @@ def run(tier, seed, vh, only_paths=None, mode=None):
     t0 = time.time()
     run = scratch_dir("seq-%s-%d" % (tier, seed))
     os.makedirs(os.path.join(run, "buckets"), exist_ok=True)
-    res = {"family": "seq", "tier": tier, "seed": seed}
+    res = {"family": "seq", "tier": tier, "seed": seed, "phases": {}}
+    tp = time.time()
+
+    def phase(name):
+        nonlocal tp
+        res["phases"][name] = round(res["phases"].get(name, 0) + time.time() - tp, 1)
+        tp = time.time()
     if only_paths is None:
         res["mc"] = run_mc(run, "MC_Seq.cfg" if tier == "quick" else "MC_Seq_thorough.cfg", 3000)
         if tier == "quick":
@@ -210,6 +216,7 @@ def run(tier, seed, vh, only_paths=None, mode=None):
             paths, gen = gen_paths(run, seed, 1500, 6, procs=16)
             p2, g2 = gen_paths(run, seed + 7, 400, 14, procs=16)
         paths += p2
+        phase("mc+gen")
         res["gen_states"] = gen + g2
         mode = mode or "both"
     else:
@@ -227,12 +234,15 @@ def run(tier, seed, vh, only_paths=None, mode=None):
     res["driver_errors"] = []
     out, traces = [], []
     for tag, bpaths, bmode in batches:
+        phase("gen")
         trace, npaths, nlines, derr = execute(run, vh, bpaths, bmode, tag=tag)
+        phase("execute")
         traces.append(trace)
         res["traces"] += npaths
         res["lines"] += nlines
         res["driver_errors"] += derr
         fails, distinct = validate(run, trace)
+        phase("validate")
         if distinct - 1 != nlines:
             raise Inconclusive("trace validation consumed %d of %d lines" % (distinct - 1, nlines))
         for t in fails:
